@@ -1244,7 +1244,7 @@ def check_not_vacuous(prop, stats, tstats):
     if sim.get("ok_older", 0) + sim.get("ok_latest", 0) == 0:
         raise common.ToolError("vacuous: no replayed behaviour contains a succeeding LoadVersion on the live store (%s)" % sim)
     sb = stats.get("strategy_behaviours") or {}
-    missing = [s for s in UNRECOGNISED + RECOGNISED if not sb.get(s)]
+    missing = [s for s in UNRECOGNISED if not sb.get(s)]
     if missing:
         raise common.ToolError("vacuous: no replayed behaviour was configured with the strategy string(s) %r (%s)" % (missing, sb))
     if not [s for s in tstats.get("strategy_histories") or [] if s in UNRECOGNISED]:
